@@ -86,7 +86,14 @@ func formatFieldPath(fieldPath ast.Path) string {
 }
 
 func formatObjectName(name string) string {
-	return tools.UpperCamelCase(name)
+	formatted := tools.UpperCamelCase(name)
+
+	// `None`, `True` and `False` are keywords: `class None:` does not parse
+	if isReservedPythonKeyword(formatted) {
+		return formatted + "_"
+	}
+
+	return formatted
 }
 
 // formatEnumMemberName names the member of an enum class. The member whose
@@ -251,7 +258,7 @@ func defaultValueForTypeRec(schemas ast.Schemas, typeDef ast.Type, importModule 
 				}
 			}
 
-			objectName := tools.UpperCamelCase(referredObj.Name)
+			objectName := formatObjectName(referredObj.Name)
 
 			if referredPkg == "" {
 				return raw(objectName + "." + enumName)
@@ -320,7 +327,7 @@ func defaultValueForTypeRec(schemas ast.Schemas, typeDef ast.Type, importModule 
 			})
 		}
 
-		formattedRef := tools.UpperCamelCase(ref.ReferredType)
+		formattedRef := formatObjectName(ref.ReferredType)
 		if referredPkg != "" {
 			formattedRef = referredPkg + "." + formattedRef
 		}
